@@ -365,7 +365,7 @@ def main(tier):
                 for flips in ((True, False), (False, True), (True, True)):
                     specs.append(('props.C06', 'ob_strand', dict(k=k, prefix=p, lens=[n1, n2], flips=list(flips), second=second)))
         # the file-level entry point: records of exactly prefix+k, one shorter, one longer, with a one-letter and an empty record
-        for lens in ([tl, tl], [tl - 1, tl + 1], [tl, 1, 0]) + (([tl + 1, tl, tl - 1], [tl + 2, tl + 2]) if tier == 'thorough' else ()):
+        for lens in ([tl, tl], [tl - 1, tl + 1], [tl, 1, 0]) + (([tl + 1, tl, tl - 1], [tl + 2, tl]) if tier == 'thorough' else ()):
             if len(p) == 1 and sum(lens) > 7:
                 continue
             specs.append(('props.C06', 'ob_file', dict(k=k, prefix=p, lens=list(lens), second=second)))
